@@ -24,6 +24,7 @@
       `precision` by construction (structural recursion in the model).
 -/
 import IgrisModel.C13.Lemmas
+import IgrisModel.C13.Total2
 namespace Igris.C13
 open Igris.C06 (Ops NUL)
 
@@ -163,5 +164,171 @@ example : resOf (printF exactA cfgNow 50 (.fin false (1 / 8)) false 8 2 { prec :
 example : resOf (printF exactA cfgNow 50 (.fin false (1 / 10000)) false 0 0 {} false true) = .done "0.0001".toList 6 := by decide +kernel
 example : resOf (printF exactA cfgNow 50 (.fin false (99999 / 100000)) false 0 2 { prec := true } true false)
     = .done "1.00e+00".toList 8 := by decide +kernel
+
+/-! ## Extension: first-class binary64 arithmetic, totality (termination) for finite arguments -/
+
+/-- a non-negative magnitude is a binary64 value: it is a fixed point of round-to-nearest-even -/
+def IsB64 (x : ℚ) : Prop := 0 ≤ x ∧ rnd64 x = some x
+
+/-- **b64_rounding_half_ulp** — every finite result of the model's binary64 rounding lies within
+half a unit of the last place of the exact value (the unit is 2^(⌊log₂ q⌋-52), at least 2^-1074). -/
+theorem b64_rounding_half_ulp {q v : ℚ} (hq : 0 < q) (h : rnd64 q = some v) :
+    |v - q| ≤ pow2 (max (ilog2 q - 52) (-1074)) / 2 := rnd64_err hq h
+
+/-- **b64_one_plus_delta** — the standard model of floating-point arithmetic: in the normal range
+`rnd(q) = q (1 + δ)` with `|δ| ≤ 2^-53`.  Every `+ * /` of `b64A` is `rnd64` of the exact result
+(`b64_ops_are_rounded_exact`), so this is the error of one operation of `print_f`. -/
+theorem b64_one_plus_delta {q v : ℚ} (hq : pow2 (-1022) ≤ q) (h : rnd64 q = some v) :
+    |v - q| ≤ q * pow2 (-53) := rnd64_rel hq h
+example : rnd64 (1 / 10) = some (3602879701896397 / 36028797018963968) := by decide +kernel
+
+/-- **b64_ops_are_rounded_exact** — multiplication, division and (for a non-zero sum) addition of
+finite values in the model are the exact rational result, rounded once. -/
+theorem b64_ops_are_rounded_exact (na nb : Bool) (a b : ℚ) :
+    b64A.mul (.fin na a) (.fin nb b) = FV.mk rnd64 (na != nb) (a * b) ∧
+    (b ≠ 0 → b64A.div (.fin na a) (.fin nb b) = FV.mk rnd64 (na != nb) (a / b)) ∧
+    (0 < FV.sval na a + FV.sval nb b →
+      b64A.add (.fin na a) (.fin nb b) = FV.mk rnd64 false (FV.sval na a + FV.sval nb b)) := by
+  rw [b64A_eq]
+  refine ⟨rfl, fun hb => ?_, fun hs => ?_⟩
+  · simp only [arithP_div]
+    simp [FV.div, hb]
+  · simp only [arithP_add, FV.add]
+    rw [if_neg (ne_of_gt hs), if_neg (not_lt.mpr (le_of_lt hs))]
+
+/-- **b64_representable** — `k·2^E` with `k ≤ 2^53`, `E ≥ -1074`, below 2^1024 is a binary64 value
+(in particular every value `ofBits` decodes), and every result of the rounding has this form. -/
+theorem b64_representable {k : ℕ} {E : ℤ} (hk : k ≤ 2 ^ 53) (hE : -1074 ≤ E) (hlt : (k : ℚ) * pow2 E < pow2 1024) :
+    IsB64 ((k : ℚ) * pow2 E) :=
+  And.intro (mul_nonneg (Nat.cast_nonneg k) (le_of_lt (pow2_pos E))) (rnd64_fix hk hE hlt)
+
+theorem b64_result_form {q v : ℚ} (hq : 0 < q) (h : rnd64 q = some v) :
+    ∃ k : ℕ, k ≤ 2 ^ 53 ∧ v = (k : ℚ) * pow2 (max (ilog2 q - 52) (-1074)) ∧ v < pow2 1024 := rnd64_form hq h
+
+/-- the magnitude range of binary64 in the form the termination measure uses -/
+theorem b64_range {x : ℚ} (h : IsB64 x) : x < 10 * 8 ^ 358 ∧ (x = 0 ∨ 1 ≤ x * 8 ^ 358) := by
+  obtain ⟨h0, hx⟩ := h
+  have e8 : (8 : ℚ) ^ 358 = pow2 1074 := by
+    rw [show (8 : ℚ) = 2 ^ 3 by norm_num, ← pow_mul, show (1074 : ℤ) = ((3 * 358 : ℕ) : ℤ) by norm_num, pow2_nat]
+  constructor
+  · rcases lt_or_eq_of_le h0 with hp | hz
+    · obtain ⟨_, _, _, hlt⟩ := rnd64_form hp hx
+      have h1 : pow2 1024 ≤ pow2 1074 := pow2_mono (by norm_num)
+      have h2 : (0 : ℚ) < pow2 1074 := pow2_pos 1074
+      rw [e8]
+      calc x < pow2 1024 := hlt
+        _ ≤ pow2 1074 := h1
+        _ ≤ 10 * pow2 1074 := le_mul_of_one_le_left (le_of_lt h2) (by norm_num)
+    · rw [← hz]; positivity
+  · rcases lawful64.rep_tiny h0 hx with hz | ht
+    · exact Or.inl hz
+    · right
+      have h2 : 2 * lawful64.d = pow2 (-1074) := by
+        show 2 * pow2 (-1075) = _
+        have : (-1074 : ℤ) = -1075 + 1 := by norm_num
+        rw [this, pow2_succ]
+      rw [h2] at ht
+      have : pow2 (-1074) * pow2 1074 = 1 := by rw [← pow2_add]; exact pow2_zero
+      rw [e8]
+      have hp := pow2_pos 1074
+      calc (1 : ℚ) = pow2 (-1074) * pow2 1074 := this.symm
+        _ ≤ x * pow2 1074 := mul_le_mul_of_nonneg_right ht (le_of_lt hp)
+
+/-- **print_f_total_b64** (termination and totality, binary64) — for EVERY finite binary64 argument
+(either sign, zero, denormals, DBL_MAX), every flag set, width, precision in `0..INT_MAX` and each of
+f/e/g, the repaired print_f over the software binary64 returns: with fuel ≥ 358 neither of the two
+decimal normalisation loops runs out (`while (ip >= base)` makes at most 341 passes because each pass
+divides the value by more than 8 — 2^1024 < 10·8^341; `while (ip == 0)` at most 358 because each
+pass multiplies it by at least 8 — 2^-1074 = 8^-358), no `(int)x` conversion is undefined (the
+digits `fmod(x,10)` of finite values, and the decimal exponent of `%g`), no repeat count is negative,
+and (by `print_f_safe`) no store leaves the buffer. -/
+theorem print_f_total_b64 (fuel : ℕ) (hfuel : 358 ≤ fuel) (neg : Bool) (x : ℚ) (hx : IsB64 x) (nanNeg : Bool)
+    (width precision : ℤ) (hp0 : 0 ≤ precision) (hp1 : precision ≤ 2147483647) (ops : Ops) (withExp isShort : Bool) :
+    ∃ out pc, printF b64A cfgNow fuel (.fin neg x) nanNeg width precision ops withExp isShort = .ok (out, pc) := by
+  rw [b64A_eq]
+  obtain ⟨r1, r2⟩ := b64_range hx
+  exact printF_total lawful64 powHost 358 fuel neg x nanNeg width precision ops withExp isShort hx.2 hx.1 r1 r2 hfuel
+    (by norm_num) hp0 hp1
+example : IsB64 (1 / 8) ∧ IsB64 0 := by
+  constructor
+  · have := b64_representable (k := 1) (E := -3) (by norm_num) (by norm_num)
+      (by rw [Nat.cast_one, one_mul]; exact pow2_lt (by norm_num))
+    have e : pow2 (-3) = 1 / 8 := by rw [pow2_eq]; norm_num
+    simpa [e] using this
+  · exact ⟨le_refl _, by decide +kernel⟩
+
+/-- the driver's fuel (`FUEL` = 1200) is therefore never exhausted -/
+theorem print_f_total_b64_driver (neg : Bool) (x : ℚ) (hx : IsB64 x) (nanNeg : Bool) (width precision : ℤ)
+    (hp0 : 0 ≤ precision) (hp1 : precision ≤ 2147483647) (ops : Ops) (withExp isShort : Bool) :
+    ∃ out pc, printF b64A cfgNow FUEL (.fin neg x) nanNeg width precision ops withExp isShort = .ok (out, pc) :=
+  print_f_total_b64 FUEL (by decide) neg x hx nanNeg width precision hp0 hp1 ops withExp isShort
+
+/-- every bit pattern with an exponent field below 2047 decodes to a binary64 value in the sense of `IsB64` -/
+theorem ofBits_isB64 (b : ℕ) (hfin : (b >>> 52) % 2048 ≠ 2047) : ∃ neg x, ofBits b = .fin neg x ∧ IsB64 x := by
+  unfold ofBits
+  simp only [hfin, if_false]
+  have hf : b % 2 ^ 52 < 2 ^ 52 := Nat.mod_lt _ (by norm_num)
+  have he : (b >>> 52) % 2048 < 2048 := Nat.mod_lt _ (by norm_num)
+  split
+  · refine ⟨_, _, rfl, b64_representable (by omega) (by norm_num) ?_⟩
+    have h1 : ((b % 2 ^ 52 : ℕ) : ℚ) ≤ 2 ^ 53 := by exact_mod_cast (by omega : b % 2 ^ 52 ≤ 2 ^ 53)
+    calc ((b % 2 ^ 52 : ℕ) : ℚ) * pow2 (-1074) ≤ (2 : ℚ) ^ 53 * pow2 (-1074) :=
+          mul_le_mul_of_nonneg_right h1 (le_of_lt (pow2_pos _))
+      _ = pow2 ((53 : ℤ) + -1074) := by rw [pow2_add, pow2_53]
+      _ < pow2 1024 := pow2_lt (by norm_num)
+  · rename_i he0
+    refine ⟨_, _, rfl, b64_representable (by omega) (by omega) ?_⟩
+    have h1 : ((2 ^ 52 + b % 2 ^ 52 : ℕ) : ℚ) < 2 ^ 53 := by exact_mod_cast (by omega : 2 ^ 52 + b % 2 ^ 52 < 2 ^ 53)
+    calc ((2 ^ 52 + b % 2 ^ 52 : ℕ) : ℚ) * pow2 (((b >>> 52) % 2048 : ℕ) - 1075)
+        < (2 : ℚ) ^ 53 * pow2 ((((b >>> 52) % 2048 : ℕ) : ℤ) - 1075) := mul_lt_mul_of_pos_right h1 (pow2_pos _)
+      _ = pow2 ((53 : ℤ) + ((((b >>> 52) % 2048 : ℕ) : ℤ) - 1075)) := by rw [pow2_add, pow2_53]
+      _ ≤ pow2 1024 := pow2_mono (by omega)
+
+/-- **print_f_total_bits** — the statement of the property's quantifier: for EVERY 64-bit pattern that
+is not an infinity or NaN (and by `print_f_nonfinite_total` for those too), print_f returns. -/
+theorem print_f_total_bits (b : ℕ) (hfin : (b >>> 52) % 2048 ≠ 2047) (nanNeg : Bool) (width precision : ℤ)
+    (hp0 : 0 ≤ precision) (hp1 : precision ≤ 2147483647) (ops : Ops) (withExp isShort : Bool) :
+    ∃ out pc, printF b64A cfgNow FUEL (ofBits b) nanNeg width precision ops withExp isShort = .ok (out, pc) := by
+  obtain ⟨neg, x, hb, hx⟩ := ofBits_isB64 b hfin
+  rw [hb]
+  exact print_f_total_b64_driver neg x hx nanNeg width precision hp0 hp1 ops withExp isShort
+
+/-- **print_f_total_lawful** — the same for every arithmetic built from a rounding that satisfies the
+laws of `Lawful` (stated as hypotheses: exactness on small integers, error ≤ max(q·u, d) with
+u, d ≤ 1/8, no overflow below representable values, fractions of representable values representable,
+non-integers small) and any `pow`: a representable argument in `[8^-N, 10·8^N)` or zero needs at
+most `N` passes of each loop.  `lawfulExact` and `lawful64` are the two instances. -/
+theorem print_f_total_lawful {rnd : Rounding} (L : Lawful rnd) (pw : Nat → Nat → FV) (N fuel : ℕ) (hfuel : N ≤ fuel)
+    (hN : N + 2 ≤ 2 ^ 30) (neg : Bool) (x : ℚ) (hx : rnd x = some x) (h0 : 0 ≤ x) (hhi : x < 10 * 8 ^ N)
+    (hlo : x = 0 ∨ 1 ≤ x * 8 ^ N) (nanNeg : Bool) (width precision : ℤ) (hp0 : 0 ≤ precision)
+    (hp1 : precision ≤ 2147483647) (ops : Ops) (withExp isShort : Bool) :
+    ∃ out pc, printF (arithP rnd pw) cfgNow fuel (.fin neg x) nanNeg width precision ops withExp isShort = .ok (out, pc) :=
+  printF_total L pw N fuel neg x nanNeg width precision ops withExp isShort hx h0 hhi hlo hfuel hN hp0 hp1
+
+/-- exact arithmetic: `%e` of 12345 needs 4 passes; with less fuel the model reports `diverged`
+(the audit's probe), with 4 it returns — the bound of `print_f_total_lawful` is the real one -/
+example : ∃ out pc, printF exactA cfgNow 4 (.fin false 12345) false 0 0 {} true false = .ok (out, pc) := by
+  rw [exactA_eq]
+  exact print_f_total_lawful lawfulExact _ 4 4 (le_refl _) (by norm_num) false 12345 rfl (by norm_num) (by norm_num)
+    (Or.inr (by norm_num)) false 0 0 (le_refl _) (by norm_num) {} true false
+theorem print_f_fuel_witness :
+    resOf (printF exactA cfgNow 3 (.fin false 12345) false 0 0 {} true false) = .diverged := by decide +kernel
+
+/-- **witness for the repaired defect C13-long-double-overflow**: the long double 1e400L
+(sign+exponent 0x4530, significand 0xed7fbd2d2e1d1d00) narrows to +inf, and on +inf the loop
+`while (ip >= base)` of the finite path — which the code entered before the fix, because it
+tested isinf on the long double — never ends: `diverged` for EVERY fuel, over binary64. -/
+theorem print_f_L_overflow_witness (fuel : Nat) (ep : FV) :
+    cvt64 (ofBits80 0x4530 0xed7fbd2d2e1d1d00) = .inf false ∧
+    normDown b64A fuel (b64A.modf (.inf false)).2 (b64A.modf (.inf false)).1 ep = .error .diverged := by
+  refine ⟨by decide +kernel, ?_⟩
+  have h0 : b64A.modf (.inf false) = (.fin false 0, .inf false) := rfl
+  rw [h0]
+  have h1 : b64A.ge (.inf false) b64A.ten = true := by decide +kernel
+  have h2 : b64A.modf (b64A.div (b64A.add (.inf false) (.fin false 0)) b64A.ten) = (.fin false 0, .inf false) := by
+    decide +kernel
+  induction fuel generalizing ep with
+  | zero => simp [normDown, h1]
+  | succ n ih => simp only [normDown, h1, if_true, h2]; exact ih _
 
 end Igris.C13
